@@ -132,7 +132,7 @@ class Drillhole(Points):
     @cost.setter
     def cost(self, value: float | int):
         assert isinstance(
-            value, (float, int)
+            value, (float, int, np.integer, np.floating)
         ), f"Provided cost value must be of type {float} or int."
         self._cost = value
         self.workspace.update_attribute(self, "attributes")
@@ -147,7 +147,7 @@ class Drillhole(Points):
     @end_of_hole.setter
     def end_of_hole(self, value: float | int | None):
         assert isinstance(
-            value, (int, float, type(None))
+            value, (int, float, np.integer, np.floating, type(None))
         ), f"Provided end_of_hole value must be of type {int}"
         self._end_of_hole = value
         self.workspace.update_attribute(self, "attributes")
